@@ -7,6 +7,10 @@ CONSTANTS
   BinForms = {"operator", "ufunc", "inplace", "out"}
   BinOpSet = {"add", "subtract", "maximum", "less", "equal"}
   ConvVias = {"in_units", "convert_to_units", "to_value", "in_base"}
+  ChainP = {""}
+  ChainTgt = {"K", "degC", "degF"}
+  ChainDT = {"f8", "f4"}
+  ChainLen3 = FALSE
 INIT Init
 NEXT Next
 INVARIANT Export
